@@ -38,6 +38,8 @@ claim("C13", "model_checking", "Reward lists as observer records; sum = -makespa
 claim("C16", "model_checking", "Graphs.tla defines node lists and typed edge sets of the five builders and the solved graph; TLC proves acyclicity and longest path = makespan for every dispatcher-built complete schedule of the family; the real builders' graphs are compared node by node and edge by edge, real solved graphs (dispatcher and CP-SAT schedules) judged by TLC's own Acyclic/LongestPath on the logged edges.", N_D, T_D, "5/C16")
 claim("C17", "model_checking", "GraphModel.tla: residual removals as a state variable driven by the IsCompleted record, invariants per builder/options incl. second episodes; the real updater's removed mask, node set and edge list after every call judged by the same predicates.", N_D, T_D, "5/C17")
 claim("C18", "model_checking", "Env.tla: legal decisions, declared spaces and what an observation must be given dispatcher/composite/residual records; TLC proves legal decisions lie in the declared action space over the family (the [J, M] variant is refuted); real single- and multi-instance environments are driven through episodes with injected invalid decisions and every observation/reward/flag is judged by the monitor.", N_D + " Gymnasium's contains() is trusted for membership.", T_D, "5/C18")
+claim("C14", "model_checking", "Rebuild.tla: from_job_sequences as a function, model-checked for every non-flexible instance of the family and every tuple of per-machine permutations (accepted <=> acyclic, result feasible/complete/ordered); views, dict/JSON/Taillard round trips and schedule round trips of real objects compared with the definitions of JobShop.tla by the monitor; instance fingerprint unchanged in every event of every trace.", N_D + " Text encodings only up to abstract content.", T_D, "5/C14")
+claim("C15", "exploration", "Pairs of operations / scheduled operations / schedules / instances built independently from TLC-generated instances and histories; the monitor judges a==b against equality of the abstract content, symmetry, reflexivity, !=, hashes, transitivity on triples. A pure relation - the specification only contributes content equality, hence exploration level.", N_D, "TLC-generated instances/histories -> real objects compared pairwise -> TLA+ monitor (content equality)", "5/C15")
 
 
 def build(registered):
